@@ -11,12 +11,12 @@ pub static DEF: CheckDef = CheckDef {
     id: "C06",
     run,
     replay,
-    rule: "all 512 first-byte / CB-byte encodings x all 16 flag states x PC values (ROM bank 0 and switchable bank, work RAM, high RAM, first and last bytes of each, 16-bit wrap) x SP values for stack-transferring instructions (0x0000, 0x0001, 0xFFFF, every region boundary, I/O and bank-register addresses) x all 256 JR displacements x jump/call targets; executed by interpreter::run_next_op and by the reference CPU on a twin machine's bus; compared: PC, SP, ordered bus writes (stack bytes and addresses), machine cycles, block-end flag vs the reference terminator set, status vs HALT/STOP/DI/EI/RETI, decoder length column; the 11 undefined opcodes must decode as invalid and be refused. The thorough tier additionally places every control-flow and stack instruction at every PC of ROM, work RAM and high RAM and runs every stack instruction with all 65536 SP values. Non-trivial = distinct (encoding, taken?, PC class, SP class) tuples, counted once each.",
+    rule: "all 512 first-byte / CB-byte encodings x all 16 flag states x PC values (ROM bank 0 and switchable bank, work RAM, high RAM, first and last bytes of each, 16-bit wrap) x SP values for stack-transferring instructions (0x0000, 0x0001, 0xFFFF, every region boundary, I/O and bank-register addresses) x ROM bank register values (2, 5, 0x1f, and 8 / 0x10 / 0 which wrap to banks 0 and 1 on the eight-bank cartridge, the other banks holding complemented bytes) for PCs at both ends of the switchable bank and at the end of bank 0 x all 256 JR displacements x jump/call targets; executed by interpreter::run_next_op and by the reference CPU on a twin machine's bus; compared: PC, SP, ordered bus writes (stack bytes and addresses), machine cycles, block-end flag vs the reference terminator set, status vs HALT/STOP/DI/EI/RETI, decoder length column; the 11 undefined opcodes must decode as invalid and be refused. The thorough tier additionally places every control-flow and stack instruction at every PC of ROM, work RAM and high RAM and runs every stack instruction with all 65536 SP values. Non-trivial = distinct (encoding, taken?, PC class, SP class) tuples, counted once each.",
     assumptions: &[
         "reference CPU models::sm83 and the literal published length/cycle tables inside it",
         "instruction bytes that cross the end of a fetch region are fetched through the normal memory map (what the hardware does)",
     ],
-    required_classes: &["taken", "not-taken", "undefined-refused", "pc-region-end", "sp-wrap", "jr-wrap"],
+    required_classes: &["taken", "not-taken", "undefined-refused", "pc-region-end", "sp-wrap", "jr-wrap", "switched-bank", "bank-wrapped-to-0"],
     exhaustive: true,
 };
 
@@ -208,6 +208,32 @@ fn run(rec: &mut Rec) {
                     let regs = regs_for(pc, sp, f, k);
                     // stack contents for RET/POP come from the snapshot fill (deterministic)
                     one(rec, &mut p, &code, &regs, &[], &mut fps);
+                }
+            }
+            // the same instruction fetched from a switched ROM bank (register values 2, 5, 0x1f,
+            // and 8 / 0x10 which wrap to bank 0 on the eight-bank cartridge); every other bank
+            // holds the complemented bytes at the same offset
+            if f == 0x00 || f == 0xf0 {
+                for &bank in &[2u8, 5, 8, 0x10, 0x1f, 0] {
+                    for &pc in &[0x3ffdu16, 0x3ffe, 0x3fff, 0x4000, 0x5123, 0x7ffd, 0x7ffe, 0x7fff] {
+                        k += 1;
+                        let mut code = vec![op];
+                        if let Some(cb) = cb {
+                            code.push(cb);
+                        } else if len == 2 {
+                            code.push((k * 37 + 5) as u8);
+                        } else if len == 3 {
+                            let t: u16 = [0x0040u16, 0x4000, 0x7fff, 0xc000, 0xff80, 0x1234][(k % 6) as usize];
+                            code.push(t as u8);
+                            code.push((t >> 8) as u8);
+                        }
+                        let regs = regs_for(pc, 0xdff0, f, k);
+                        one(rec, &mut p, &code, &regs, &[(0x2100, bank)], &mut fps);
+                        rec.class("switched-bank", 1);
+                        if super::c05::mapped_bank_std(bank) == 0 {
+                            rec.class("bank-wrapped-to-0", 1);
+                        }
+                    }
                 }
             }
             if is_jr {
